@@ -296,8 +296,8 @@ def run(ctx):
     # ... and the seed those generators receive is the script's: given seeds (0 included) are kept, only a missing seed is drawn
     from . import c08
     c08.rule_py_seed(ctx, ctx.py, "C14.SEED-PY")
-    from .. import truth
-    truth.rule(ctx, "C14.TRUTH", ctx.py, ["rdscript"], floor=5)
+    from .. import lints
+    lints.run(ctx, "C14", ctx.py, ["rdscript"], truth_floor=5)
     ctx.assume("totals, non-negativity, 'zero stays zero', the Poisson law and termination of the redistribution loop "
                "are value-level and not decided (the loop is named by C10.LOOPS)")
     ctx.assume("the Python side hands state and chemostat map over species-major (C13.INDEX)")
